@@ -1,4 +1,7 @@
 import ElexModel.Core.Gauss
+import ElexModel.Gen.C15
+import ElexModel.Lemmas.Num
+import Mathlib.Data.Rat.Defs
 import Mathlib.Tactic.Linarith
 import Mathlib.Data.List.Basic
 
@@ -217,5 +220,52 @@ example : fitRows exConf exGroups 2 = [[], [0], [0, 0]] := by decide
 example : exGroups.map (assign (fitRows exConf exGroups 2) 2) =
     [some [0, 0], some [0], some [0], some [], some []] := by decide
 example : exGroups.map (source exConf 2) = [[0, 0], [0], [0], [], []] := by decide
+
+end ElexModel.Gauss
+
+/-! ### bridge: `GaussianModel.fit` and the matching loop as they are in `/repo/src` on this run -/
+
+namespace ElexModel.Gauss
+open ElexModel
+
+/-- `MODEL_THRESHOLD = min(10, n_conformalization_data)` -/
+theorem bridge_threshold (conf : List Key) : ((thr conf : ℕ) : ℚ) = Gen.C15.model_threshold (conf.length : ℚ) := by
+  unfold thr Gen.C15.model_threshold
+  rw [rmin_eq]
+  push_cast
+  simp
+
+/-- a group keeps its own model iff the source's fallback test is false for its count -/
+theorem bridge_big (conf : List Key) (p : Key) :
+    big conf p = !Gen.C15.falls_back (cnt conf p : ℚ) (thr conf : ℚ) := by
+  unfold big Gen.C15.falls_back
+  by_cases h : thr conf ≤ cnt conf p
+  · have : ¬ ((cnt conf p : ℚ) < (thr conf : ℚ)) := by
+      have : ((thr conf : ℕ) : ℚ) ≤ (cnt conf p : ℚ) := by exact_mod_cast h
+      linarith
+    simp [h, this]
+  · have : ((cnt conf p : ℚ) < (thr conf : ℚ)) := by
+      have : cnt conf p < thr conf := by omega
+      exact_mod_cast this
+    simp [h, this]
+
+theorem bridge_quantile (alpha : ℚ) : Gen.C15.gauss_quantile alpha = (3 + alpha) / 4 := rfl
+
+/-- the recursion (coarser fit with one key column less + own fit of the large groups, in this order), the `>=` query, the
+    group counts over calibration ∪ nonreporting groups, the matching loop, and the final chains -/
+theorem bridge_shape :
+    Gen.C15.unresidualize_chain = ["last_election", "merge(modeled_bounds, how='inner', on=aggregate)", "assign(predicted_lower, predicted_upper)", "drop(columns=f'last_election_results_{estimand}')"] ∧
+    Gen.C15.total_chain = ["aggregate_votes", "merge(aggregate_prediction_intervals, how='outer', on=aggregate)", "fillna({f'results_{estimand}': 0, 'predicted_lower': 0, 'predicted_upper': 0})", "assign(lower, upper)", "sort_values(aggregate)", "[aggregate + ['lower', 'upper']]", "reset_index(drop=True)"] ∧
+    Gen.C15.gauss_returned = ["PredictionIntervals(aggregate_data.lower.round(decimals=0), aggregate_data.upper.round(decimals=0))"] ∧
+    Gen.C15.no_nonreporting = ["nonreporting_units.shape[0] == 0 -> return (aggregate_votes[f'results_{estimand}'], aggregate_votes[f'results_{estimand}'])"] ∧
+    Gen.C15.matching_loop = ["for i in range(1, len(aggregate) + 1)", "last_i_aggregate = aggregate[len(aggregate) - i:]", "remaining_models_idx = pd.isnull(gaussian_model[last_i_aggregate]).all(axis=1)", "remaining_models = gaussian_model[remaining_models_idx].reset_index(drop=True)", "remaining_models.drop(columns=last_i_aggregate, inplace=True)", "previous_aggregate = aggregate[:len(aggregate) - i + 1]", "next_aggregate = previous_aggregate[:-1]", "remaining_bounds_idx = bounds.merge(modeled_bounds, how='left', on=aggregate, indicator=True).query('_merge != 'both'').index", "remaining_bounds = bounds.iloc[remaining_bounds_idx].reset_index(drop=True)", "if len(next_aggregate) == 0: remaining_bounds_w_models = remaining_bounds.merge(remaining_models, how='cross') else: remaining_bounds_w_models = remaining_bounds.merge(remaining_models, how='inner', on=next_aggregate)", "modeled_bounds = pd.concat([modeled_bounds, remaining_bounds_w_models])"] ∧
+    Gen.C15.first_match = ["bounds.merge(gaussian_model, how='inner', on=aggregate)"] ∧
+    Gen.C15.fit_call = ["conformalization_data", "reporting_units", "nonreporting_units", "estimand", "aggregate=aggregate", "alpha=alpha", "reweight=False", "top_level=True"] ∧
+    Gen.C15.recursive_fits = ["conformalization_data; reporting_units; nonreporting_units; estimand; aggregate=aggregate[:-1]; alpha=alpha; reweight=reweight; top_level=False", "conformalization_data_for_large_groups; reporting_units_for_large_groups; nonreporting_units_for_large_groups; estimand; aggregate=aggregate; alpha=alpha; reweight=reweight; top_level=False"] ∧
+    Gen.C15.large_group_query = ["'n >= @MODEL_THRESHOLD'"] ∧
+    Gen.C15.combine = ["pd.concat([gaussian_model_small_groups, gaussian_model_large_groups]).reset_index(drop=True)", "x = self._fit(conformalization_data, estimand, aggregate, alpha)"] ∧
+    Gen.C15.empty_calibration = ["n_conformalization_data == 0 -> return self._empty_gaussian_model(conformalization_data, aggregate)"] ∧
+    Gen.C15.group_counts = ["if not aggregate:     return {'n': conformalization_data.shape[0]}", "conformalization_counts = conformalization_data.groupby(aggregate).size().reset_index(name='n')", "return nonreporting_units.groupby(aggregate).size().reset_index(drop=False).drop(columns=0).merge(conformalization_counts, how='outer', on=aggregate).fillna({'n': 0})"] :=
+  ⟨rfl, rfl, rfl, rfl, rfl, rfl, rfl, rfl, rfl, rfl, rfl, rfl⟩
 
 end ElexModel.Gauss
